@@ -53,6 +53,20 @@ claim("C01",
       "integers / inf / nan; known finding F2 (filler rows displace inf/nan draws) is classified by its exact input class.",
       "TLA+ design model checked by TLC + TLC trace validation of recorded update/result sequences", "5/C01")
 
+claim("C06",
+      "TLC checks NpyStore.tla exhaustively at file-operation grain: every history of public calls (append, in-place overwrite, "
+      "truncate/delete-last/clear, read, flush, close+reopen, pickle round trip), each a program of low-level file operations, with "
+      "Python's write buffer drained non-deterministically and a process kill between any two operations; invariants FlushExact, "
+      "CrashSafe and the action property Refines; the two original operation orders (findings F6, F7, now repaired) are negative "
+      "controls that TLC refutes.  Real NpyArray / NpyStore histories over 6 dtypes, several row shapes and batch sizes are recorded "
+      "(a) without kill, observing the store after every call or only at the end and numpy.load-ing the file after every flush/close, "
+      "and (b) in forked children that os._exit() before/after every low-level file call and after every public call; TLC validates "
+      "each against NpyStore_Trace.tla, which re-uses the design module's actions and infers how far the killed call got and which "
+      "buffered writes had reached the OS.",
+      "Process kill only (no power-failure / page-cache loss); the file proxy shadows elfi.store.open at run time; CPython's "
+      "BufferedRandom is over-approximated (any prefix of the buffered writes may have reached the OS).",
+      "TLA+ crash model checked by TLC + TLC trace validation of kill-injected executions", "5/C06")
+
 ALL = ["C%02d" % i for i in range(1, 21)]
 
 
